@@ -492,7 +492,7 @@ func c17RunScript(r *verifkit.Run, sc c17Script, desc string, pre bool, shuffle 
 
 func c17ScheduleWorkload(r *verifkit.Run, repeats int, pre bool) {
 	r.SetRule("script = 1-3 registrations (standard/backoff) on one hand-fed Ticker, 1..64 ticks in bursts of 1-16 sent back to back, registrations and cancellations at quiescent points or inside a burst, retransmit invocations parked at a gate and released in PRNG order at PRNG-chosen barriers (possibly several bursts later); oracle at every quiescent point: retransmissions == |{2^k+k} ∩ [1,ticks seen by the strategy]| (standard: == ticks), ticks seen within the legal range, none after the context ended. non-trivial = a Tick call finished its counter section while another Tick call of the same registration was still in flight (observed at the gate; oracle pass also counts physically overlapping calls)")
-	n := r.N(300, 10000)
+	n := r.N(300, 3000)
 	maxTicks := 64
 	if !r.Quick() {
 		maxTicks = 160
@@ -553,7 +553,7 @@ func TestVerif_C17_ScheduleRace(t *testing.T) {
 	r := verifkit.Start(t, "C17", "schedule-race")
 	defer r.Finish()
 	r.Assume("race pass: monitor hooks run only after the strategy's counter section, so the detector sees the strategy's own synchronisation only")
-	c17ScheduleWorkload(r, r.N(3, 10), false)
+	c17ScheduleWorkload(r, r.N(3, 4), false)
 }
 
 // ---------------------------------------------------------------------------
@@ -702,5 +702,5 @@ func TestVerif_C17_DirectRace(t *testing.T) {
 	r := verifkit.Start(t, "C17", "direct-race")
 	defer r.Finish()
 	r.Assume("race pass: the retransmit callback writes a per-goroutine slot merged after WaitGroup.Wait; the only added synchronisation is the start barrier of a burst and the wait for its end")
-	c17DirectWorkload(r, r.N(3, 10), false)
+	c17DirectWorkload(r, r.N(3, 4), false)
 }
